@@ -64,7 +64,8 @@ def run_check(pid, root, tier='quick'):
 
 def run_variant(v):
     """v: dict(id, prop, file, old, new, expect, [rule], [count]) -> dict(result)"""
-    vers = tuple({v['file'].split('/')[1]} if v['file'].startswith('hl7apy/v2_') else ())
+    files = [e[0] for e in (v.get('edits') or [])] + ([v['file']] if v.get('file') else [])
+    vers = tuple({f.split('/')[1] for f in files if f.startswith('hl7apy/v2_')})
     root = make_copy(vers)
     try:
         edits = v.get('edits') or [(v['file'], v['old'], v['new'])]
